@@ -25,7 +25,7 @@ SPEC = {
     "C14": [("MD.Props.C14", None), ("MD.Props.C04_HES", "re:C14_"), ("MD.Props.C04_HQS", "re:C14_")],
     "C15": [("MD.Props.C15", None), ("MD.Proofs.ElemIntegral", None)],
     "C16": [("MD.Props.C16", None), ("MD.Props.C16b", None)],
-    "C17": [("MD.Props.C17", None)],
+    "C17": [("MD.Props.C17", None), ("MD.Props.C17b", None)],
     "C18": [("MD.Props.C18", None)],
     "C19": [("MD.Props.C19", None), ("MD.Props.C19b", None), ("MD.Props.C19c", None)],
     "C20": [("MD.Props.C20", None)],
